@@ -62,6 +62,8 @@ pub struct Ep {
     pub written: i64,
     pub read: i64,
     pub closed_at: Option<i64>,
+    /// device tokens for the next poll only (None: plenty; running out of plenty is a hang)
+    pub limit: Option<usize>,
 }
 
 pub fn state_name(s: tcp::State) -> &'static str {
@@ -121,7 +123,7 @@ impl Ep {
             l.listen(9).unwrap();
             sockets.add(l);
         }
-        Ep { idx, iface, dev, sockets, h, cfg, written: 0, read: 0, closed_at: None }
+        Ep { idx, iface, dev, sockets, h, cfg, written: 0, read: 0, closed_at: None, limit: None }
     }
     pub fn sock(&mut self) -> &mut tcp::Socket<'static> {
         self.sockets.get_mut::<tcp::Socket>(self.h)
@@ -145,11 +147,12 @@ impl Ep {
         for f in frames {
             self.dev.rx.push_back(f);
         }
-        self.dev.tx_budget = Some(5000);
+        let lim = self.limit.take();
+        self.dev.tx_budget = Some(lim.unwrap_or(5000));
         let r = guarded(|| {
             self.iface.poll(Instant::from_millis(now), &mut self.dev, &mut self.sockets);
         });
-        let hang = self.dev.tx_budget == Some(0);
+        let hang = lim.is_none() && self.dev.tx_budget == Some(0);
         self.dev.tx_budget = None;
         let out = self.dev.take_tx();
         match r {
@@ -290,6 +293,9 @@ pub fn pair(args: &Args) {
     let small = args.flag("small");
     let force_zwr = args.flag("zwr");
     let force_ackloss = args.flag("ackloss");
+    // (C01 only: the receiver of a scaled-edge run is not polled by its timers while its reader sleeps -- a busy host --,
+    //  which is outside the poll discipline C02 presupposes)
+    let edge_mode = args.flag("edge");
     let maxbytes = args.u64("maxbytes", 20000);
     let only = args.map.get("only").map(|x| x.parse::<usize>().unwrap());
     for run in 0..runs {
@@ -308,10 +314,18 @@ pub fn pair(args: &Args) {
         let aligned = rng.chance(30);
         let seg = (ca.mtu - if ca.v6 { 60 } else { 40 } - if ca.ts && cb.ts { 12 } else { 0 }).max(1);
         let kseg = *rng.pick(&[2usize, 3, 4, 4, 5, 5]);
+        // a quarter of the aligned runs use a receive buffer just above 64 KiB with an odd size: the window is scaled, the
+        // edge the receiver remembers is rounded down, and the stream (with its FIN on the last segment) ends exactly at the
+        // edge the sender took from the SYN-ACK's unscaled window
+        let scaled_edge = aligned && !small && edge_mode && rng.chance(60);
         if aligned {
             cb.rx = kseg * seg;
             ca.tx = ca.tx.max((kseg + 3) * seg);
             ca.nagle = false;
+        }
+        if scaled_edge {
+            cb.rx = 65537 + 2 * rng.range(0, 3000) as usize;
+            ca.tx = ca.tx.max(70000);
         }
         // half of the aligned runs have a quiet link with exactly one scripted loss (the first, the second or the last
         // segment of the first window), so that duplicate ACKs arrive in order and fast retransmit is exercised
@@ -351,7 +365,7 @@ pub fn pair(args: &Args) {
                 c.timeout = None;
             }
         }
-        let scripted_loss = aligned && rng.chance(50);
+        let scripted_loss = aligned && !scaled_edge && rng.chance(50);
         DROP_NTH_DATA.with(|c| c.set(if scripted_loss { *rng.pick(&[1i64, 1, 2, kseg as i64]) } else { 0 }));
         let mut eps = [Ep::new(0, ca.clone(), Instant::from_millis(0)), Ep::new(1, cb.clone(), Instant::from_millis(0))];
         let mut num = Numbering::default();
@@ -368,7 +382,13 @@ pub fn pair(args: &Args) {
         if aligned {
             total[0] = ((kseg + *rng.pick(&[1usize, 1, 2])) * seg) as i64;
         }
+        if scaled_edge {
+            total[0] = 65535;
+        }
         let mut reader_stall = [if rng.chance(25) { rng.range(100, 5000) as i64 } else { 0 }, if rng.chance(35) { rng.range(100, 5000) as i64 } else { 0 }];
+        if scaled_edge {
+            reader_stall[1] = reader_stall[1].max(3000);
+        }
         let (drop_pct, dup_pct, flip_pct, jitter, adv_until) = if zwr {
             reader_stall = [0, rng.range(1500, 6000) as i64];
             // half of the runs: what is left when the window closes for the first time fits the window that re-opens, so
@@ -392,7 +412,7 @@ pub fn pair(args: &Args) {
         // a stream much longer than the smallest buffer on its way only adds steps (and would hit the step limit)
         total[0] = total[0].min(400 * (ca.tx.min(cb.rx) as i64));
         total[1] = total[1].min(400 * (cb.tx.min(ca.rx) as i64));
-        t.ev(json!({"ev":"reset","run":run,"world":"tcp_pair","seed":seed0,"pollat":pollat_mode,"args":{"small":small,"probe":probe,"zwr":force_zwr,"ackloss":force_ackloss,"maxbytes":maxbytes},"zw":zwr,"al":ackloss,
+        t.ev(json!({"ev":"reset","run":run,"world":"tcp_pair","seed":seed0,"pollat":pollat_mode,"args":{"small":small,"probe":probe,"zwr":force_zwr,"ackloss":force_ackloss,"edge":edge_mode,"maxbytes":maxbytes},"zw":zwr,"al":ackloss,
             "v6":ca.v6,"cfg":[{"rx":ca.rx,"tx":ca.tx,"mtu":ca.mtu,"cc":ca.cc,"ad":ca.ack_delay.map(|x| x as i64).unwrap_or(-1),"nagle":ca.nagle,"ts":ca.ts,"isn":wa,"ka":ca.keep_alive.map(|x| x as i64).unwrap_or(-1),"tmo":ca.timeout.map(|x| x as i64).unwrap_or(-1),"spare":ca.spare},
                    {"rx":cb.rx,"tx":cb.tx,"mtu":cb.mtu,"cc":cb.cc,"ad":cb.ack_delay.map(|x| x as i64).unwrap_or(-1),"nagle":cb.nagle,"ts":cb.ts,"isn":wb,"ka":cb.keep_alive.map(|x| x as i64).unwrap_or(-1),"tmo":cb.timeout.map(|x| x as i64).unwrap_or(-1),"spare":cb.spare}],
             "link":{"drop":drop_pct,"dup":dup_pct,"flip":flip_pct,"delay":base_delay,"jitter":jitter,"adv_until":adv_until},"total":total}));
@@ -474,6 +494,9 @@ pub fn pair(args: &Args) {
                 let dlb = eps[e].poll_at(now);
                 let before = eps[e].state();
                 let segp = num.clone().proj_frame(1 - e, &f.frame);
+                // scaled-edge runs: while its reader sleeps the receiver's device lets nothing out (the one token of a poll
+                // goes with the received frame), so the window edge it remembers stays the one of its SYN-ACK
+                eps[e].limit = if scaled_edge && e == 1 && now < reader_stall[1] && before == "ESTABLISHED" { Some(1) } else { None };
                 match eps[e].poll(now, vec![f.frame.clone()]) {
                     Ok(out) => {
                         let outs: Vec<Value> = out.iter().map(|o| num.proj_frame(e, o)).collect();
@@ -489,6 +512,10 @@ pub fn pair(args: &Args) {
                     }
                 }
                 deadline[e] = eps[e].poll_at(now);
+                if scaled_edge && e == 1 && now < reader_stall[1] && eps[1].state() == "ESTABLISHED" {
+                    // the busy host: no timer poll before its reader wakes up
+                    deadline[1] = reader_stall[1];
+                }
                 last_activity = now;
                 progressed = true;
             }
